@@ -72,8 +72,8 @@ impl Scenario for Icmp {
 
     fn budget(&self, tier: Tier) -> u64 {
         match tier {
-            Tier::Quick => 4_000,
-            Tier::Thorough => 300_000,
+            Tier::Quick => 50_000,
+            Tier::Thorough => 5_000_000,
         }
     }
 
